@@ -41,6 +41,37 @@ def _has_q(t, seen):
     return any(_has_q(c, seen) for c in t.children())
 
 
+_wk = {}
+
+
+def weaken(t, pol):
+    """A quantifier-free formula implied by t (pol=True) / implying t (pol=False): quantified subformulas
+    are replaced by True in positive and False in negative positions."""
+    key = (t.get_id(), pol)
+    r = _wk.get(key)
+    if r is not None:
+        return r[0]
+    r = _weaken(t, pol)
+    _wk[key] = (r, t)
+    return r
+
+
+def _weaken(t, pol):
+    if not has_quantifier(t):
+        return t
+    if z3.is_quantifier(t):
+        return z3.BoolVal(pol)
+    if z3.is_and(t):
+        return z3.And(*[weaken(c, pol) for c in t.children()])
+    if z3.is_or(t):
+        return z3.Or(*[weaken(c, pol) for c in t.children()])
+    if z3.is_not(t):
+        return z3.Not(weaken(t.arg(0), not pol))
+    if z3.is_implies(t):
+        return z3.Implies(weaken(t.arg(0), not pol), weaken(t.arg(1), pol))
+    return z3.BoolVal(pol)
+
+
 class SolverCache:
     def __init__(self, timeout_ms=4000):
         self.cache = {}
@@ -112,6 +143,11 @@ class Ctx:
             return
         if z3.is_false(t):
             raise PathEnd()
+        if z3.is_and(t):
+            # keep conjuncts separate: the quantifier-free ones stay usable for path pruning
+            for c in t.children():
+                self.assume(c)
+            return
         self.pc.append(t)
 
 
@@ -119,7 +155,14 @@ class Ctx:
     def feasible(self, extra=None):
         """Pruning only: quantified hypotheses are left out (a weaker path condition can only keep
         more paths alive; their obligations are discharged later against the full hypotheses)."""
-        terms = [t for t in self.pc if not has_quantifier(t)]
+        terms = []
+        for t in self.pc:
+            if has_quantifier(t):
+                w = weaken(t, True)
+                if not z3.is_true(w):
+                    terms.append(w)
+            else:
+                terms.append(t)
         if extra is not None:
             terms.append(extra)
         r = self.cache.check(terms)
